@@ -92,21 +92,20 @@ Proof.
   { rewrite Hc. unfold no_abortb. unfold no_abort in Hna.
     destruct (panic_of sc) as [[|v]|]; [exfalso; apply Hna; reflexivity | reflexivity | reflexivity]. }
   unfold verdict_ok, spec_ok, check_case.
-  cbn [spec_noescape spec_500 spec_records model_ok]. fold r. rewrite Hscope, Hesc. cbn [negb orb].
+  cbn [spec_noescape spec_500 spec_records model_ok model_body]. fold r. rewrite Hscope, Hesc. cbn [negb orb].
   (* model part *)
   rewrite N.eqb_refl, (list_eqb_refl N.eqb (body r) N.eqb_refl),
     (list_eqb_refl (record_eqb_upto (set_once sc)) (records r) (record_eqb_upto_refl _)).
   rewrite orb_true_r. cbn [Bool.eqb andb].
   (* 500 part *)
   assert (G500 : (if panics_before_header sc
-                  then (wire r =? 500) && (negb bs || list_eqb N.eqb (body r) [err_chunk])
-                  else negb (memN err_chunk (body r)) && (negb (wire r =? 500) || has_hdr 500 sc)) = true).
+                  then wire r =? 500
+                  else negb (wire r =? 500) || has_hdr 500 sc) = true).
   { destruct (panics_before_header sc) eqn:Ep.
-    - destruct (Hsent (proj2 H500 eq_refl)) as [Hw Hb]. rewrite Hw, Hb. cbn. apply orb_true_r.
+    - destruct (Hsent (proj2 H500 eq_refl)) as [Hw Hb]. rewrite Hw. reflexivity.
     - assert (Hr : relay500 r = false).
       { destruct (relay500 r) eqn:E; [|reflexivity]. pose proof (proj1 H500 eq_refl). discriminate. }
-      destruct (Hnot Hr) as [Hw Hb]. rewrite Hb.
-      rewrite (exec_no_err_chunk sc rw0 Hne). cbn [rw0 wbody memN negb andb].
+      destruct (Hnot Hr) as [Hw Hb].
       destruct (wire r =? 500) eqn:E5; [|reflexivity]. cbn [negb orb].
       apply N.eqb_eq in E5. unfold wire in E5. rewrite Hw in E5.
       destruct (wire_hdr (fst (exec true sc rw0))) as [c|] eqn:Ew; [|discriminate].
